@@ -267,6 +267,10 @@ def build(rng: random.Random, size: str = "quick"):
     n0 = len(pool)
     for k, other in enumerate(["MC", "KM", "AT", "GB", "SM", "XX"]):
         pool.insert((k + 1) * n0 // 7, {"fn": "reuse_kept", "other": other})
+    # user subclasses with a narrowed constructor going through the alternative constructors (whatever the library
+    # concludes about a class must not depend on what it concluded about another class before)
+    for k, (which, how) in enumerate([("a", "generate"), ("b", "from_bban"), ("c", "random"), ("d", "construct"), ("a", "from_bban"), ("e", "generate")]):
+        pool.insert((k * n0) // 6 + 3, {"fn": "narrow_subclass", "which": which, "how": how, "grp": "narrow"})
     # public-looking registry calls that fail: they must leave everything as it was
     for k, d in enumerate([{"fn": "registry_fail", "how": "get_unknown"}, {"fn": "registry_fail", "how": "build_index_missing_key"}, {"fn": "registry_fail", "how": "manipulate_raises"}]):
         pool.insert((2 * k + 1) * n0 // 7, d)
